@@ -1314,14 +1314,17 @@ static int parse_item(struct scanner_s *scanner, cif_container_tp *container, UC
         }
     
         if (result == CIF_OK) {
-            if ((name != NULL) && (container != NULL)) {
+            if (name != NULL) {
                 assert(scanner->skip_depth <= 0);
 
+                /* the handler is notified in syntax-only mode (container == NULL), too, as it is for looped items */
                 result = OPTIONAL_CALL(scanner->handler->handle_item, (name, value, scanner->user_data), CIF_OK);
                 switch (result) {
                     case CIF_TRAVERSE_CONTINUE:
-                        /* _copy_ the value into the CIF */
-                        result = cif_container_set_value(container, name, value);
+                        /* _copy_ the value into the CIF, if there is one */
+                        if (container != NULL) {
+                            result = cif_container_set_value(container, name, value);
+                        }
                         break;
                     case CIF_TRAVERSE_SKIP_CURRENT:
                         /* no need to set the skip depth because we don't go any deeper from here */
